@@ -203,6 +203,14 @@ class FormulaExt(Extension):
                 return SV('bool', is_tag(a.t, *names))
             if cls.ty == 'func' and cls.x[0] == 'builtin' and cls.x[1] in ('bool', 'str'):
                 return SV('bool', z3.BoolVal(False))
+            if cls.ty == 'type' and cls.x in ('Formula', 'StateFormula', 'PathFormula'):
+                # live class table: which alphabet classes of CTL are subclasses of CTL.<cls>
+                import pyModelChecking.CTL as CTL
+                base = getattr(CTL, cls.x)
+                names = sorted(n_ for n_, c_ in CTL.alphabet.items() if issubclass(c_, base) and n_ in TAG)
+                if set(names) == set(TAGS):
+                    return SV('bool', z3.BoolVal(True))       # every class of the alphabet: statically true
+                return SV('bool', is_tag(a.t, *names) if names else z3.BoolVal(False))
         return None
 
     def method(self, E, ex, base, attr, args, kwargs, path, node):
